@@ -9,7 +9,7 @@
 # Modified by Anders Logg, 2009-2010
 
 from ufl.algorithms.map_integrands import map_integrand_dags
-from ufl.classes import Conj, Grad, Product
+from ufl.classes import Conj, Grad, Product, Zero
 from ufl.compound_expressions import cofactor_expr, determinant_expr, deviatoric_expr, inverse_expr
 from ufl.core.multiindex import Index, indices
 from ufl.corealg.multifunction import MultiFunction
@@ -105,18 +105,28 @@ class LowerCompoundAlgebra(MultiFunction):
 
     # ------------ Compound differential operators
 
+    def _zero_like(self, o):
+        """The operand vanished while being lowered: a Zero carries no domain to differentiate on."""
+        return Zero(o.ufl_shape, o.ufl_free_indices, o.ufl_index_dimensions)
+
     def div(self, o, a):
         """Lower a div."""
+        if isinstance(a, Zero):
+            return self._zero_like(o)
         i = Index()
         return a[..., i].dx(i)
 
     def nabla_div(self, o, a):
         """Lower a nabla_div."""
+        if isinstance(a, Zero):
+            return self._zero_like(o)
         i = Index()
         return a[i, ...].dx(i)
 
     def nabla_grad(self, o, a):
         """Lower a nabla_grad."""
+        if isinstance(a, Zero):
+            return self._zero_like(o)
         sh = a.ufl_shape
         if sh == ():
             return Grad(a)
@@ -135,6 +145,8 @@ class LowerCompoundAlgebra(MultiFunction):
             """A component of curl."""
             return a[j].dx(i) - a[i].dx(j)
 
+        if isinstance(a, Zero):
+            return self._zero_like(o)
         sh = a.ufl_shape
         if sh == ():
             return as_vector((a.dx(1), -a.dx(0)))
